@@ -14,6 +14,11 @@ type Query { a: Int b: Int o: Obj }
 type Obj { a: Int b: Int o: Obj }
 `
 
+// c09Extra: types named like the directives (a directive use names a directive whatever types the schema has)
+var c09Extra string
+
+const c09Namesakes = "type skip { z: Int }\ntype include { z: Int }\ninput deprecated { z: Int }\n"
+
 // recNode is an interface-strategy resolver that logs every invocation.
 type recNode struct{ log *[]string }
 
@@ -119,7 +124,7 @@ func c09Run(o *Out, dirs []c09Dir, kind, depth int, class string) {
 	doc, vars, dt, vt := c09Build(dirs, kind, depth)
 	var log []string
 	root := ggql.NewRoot(&recNode{log: &log})
-	if err := root.ParseString(c09Schema); err != nil {
+	if err := root.ParseString(c09Schema + c09Extra); err != nil {
 		panic(err)
 	}
 	res := safeResolve(root, doc, "", vars)
@@ -186,7 +191,13 @@ func init() {
 					}
 					for kind := 0; kind < 4; kind++ {
 						for depth := 0; depth < 3; depth++ {
+							c09Extra = ""
 							c09Run(o, dirs, kind, depth, "table")
+							if depth == 0 {
+								c09Extra = c09Namesakes
+								c09Run(o, dirs, kind, depth, "table, types named like the directives")
+								c09Extra = ""
+							}
 						}
 					}
 				}
@@ -207,7 +218,11 @@ func init() {
 				}
 				dirs = append(dirs, c09Dir{name, c09Src(1 + rng.Intn(7))})
 			}
+			if rng.Chance(25) {
+				c09Extra = c09Namesakes
+			}
 			c09Run(o, dirs, rng.Intn(4), rng.Intn(3), "random")
+			c09Extra = ""
 		}
 		// directives at any depth of generated documents (also under list-valued fields), the document parsed
 		// once and resolved three times with the supplied conditions flipped between the calls
